@@ -155,18 +155,36 @@ def getDocstring (bases : Nat → List Nat) (ext : Nat → Bool) (owns hasDoc : 
 
 /-! ### consumers of the linearisation -/
 
-/-- `Class.mro()` while `_mro` is still `None` (inside the AST visitors):
+/-- `Class.mro()` while `_mro` is still `None` (inside the AST visitors), before commit 7c3f474:
 `list(self.allbases(include_self))`. -/
-def classMroEarly (bases : Nat → List Nat) (ext : Nat → Bool) (c : Nat) (includeSelf : Bool := true) :
+def classMroEarlyOld (bases : Nat → List Nat) (ext : Nat → Bool) (c : Nat) (includeSelf : Bool := true) :
     List Nat :=
   if includeSelf then allbases bases ext c
   else ((bases c).filter (fun b => !ext b)).flatMap (allbasesFuel bases ext c)
+
+/-- `Class.mro()` while `_mro` is still `None` (inside the AST visitors):
+```
+try: early_mro = mro.mro(self, lambda c: [b for b in c.baseobjects if b is not None])
+except (ValueError, RecursionError): return list(self.allbases(include_self))
+return early_mro if include_self else early_mro[1:]
+```
+(`include_external` plays no role: the unresolved bases are not part of this order.) -/
+def classMroEarly (bases : Nat → List Nat) (ext : Nat → Bool) (c : Nat) (includeSelf : Bool := true) :
+    List Nat :=
+  match mro (fun k => (bases k).filter fun b => !ext b) c with
+  | some l => if includeSelf then l else l.drop 1
+  | none => classMroEarlyOld bases ext c includeSelf
 
 /-- `Class.find(name)` while `_mro` is still `None`: what `expandName` (an inherited nested class
 named as a base, an alias of an inherited member) and `astbuilder._maybeAttribute` get during the visit. -/
 def findEarly (bases : Nat → List Nat) (ext : Nat → Bool) (owns : Nat → Nat → Bool) (c name : Nat) :
     Option Nat :=
   (classMroEarly bases ext c).find? fun b => owns b name
+
+/-- the same before commit 7c3f474 (depth-first `allbases` order) -/
+def findEarlyOld (bases : Nat → List Nat) (ext : Nat → Bool) (owns : Nat → Nat → Bool) (c name : Nat) :
+    Option Nat :=
+  (classMroEarlyOld bases ext c).find? fun b => owns b name
 
 /-- `is_exception(cls)`: `for base in cls.mro(True, False): if base in _STD_LIB_EXCEPTIONS: return True`.
 `std b` = `b` is an unresolved base whose name is in the table (a `Class` object is never `in` a
